@@ -12,12 +12,27 @@ from bounded._common import Tally, rtcheck, load_contracts
 ASSUMPTIONS = ["bounded tier: fixed pools of hostile inputs (listed in bounded/C02.py), 5 s wall limit per call as the termination criterion"]
 
 
-class _Timeout(Exception):
+class _Timeout(BaseException):     # not an Exception: the library must not be able to swallow the watchdog
     pass
 
 
 def _alarm(signum, frame):
     raise _Timeout()
+
+
+def _call_with_expect(g, expect, inp, exc):
+    signal.signal(signal.SIGALRM, _alarm)
+    signal.alarm(5)
+    try:
+        return ('returned', g(expect, inp))
+    except _Timeout:
+        return ('timeout', None)
+    except exc.MITxError as e:
+        return ('mitx', e)
+    except Exception as e:
+        return ('foreign', e)
+    finally:
+        signal.alarm(0)
 
 
 def run(tier, seed):
@@ -118,6 +133,51 @@ def run(tier, seed):
                 got = '%s: %s' % (type(e).__name__, str(e)[:100])
             key = (name, 'non-list', repr(inp)[:40])
             (t.ok if got == 'ConfigError' else t.fail)(name + ' non-list input', key, *([] if got == 'ConfigError' else ['%s on %r: %s, expected ConfigError' % (name, inp, got)]))
+    # graders WITHOUT configured answers: the answer is inferred from expect before the input is validated
+    for name, mk, expect in (('StringGrader()', lambda: sg.StringGrader(), 'cat'), ('FormulaGrader()', lambda: fgm.FormulaGrader(variables=['x']), 'x+1'),
+                             ('NumericalGrader()', lambda: fgm.NumericalGrader(), '3'), ('SingleListGrader()', lambda: lg.SingleListGrader(subgrader=sg.StringGrader()), 'a, b')):
+        for inp in bad_single:
+            for dbg in (False, True):
+                try:
+                    g = mk()
+                    g.config['debug'] = dbg
+                    r = g(expect, inp)
+                    got = 'graded %r' % (r,)
+                except exc.ConfigError:
+                    got = 'ConfigError'
+                except Exception as e:
+                    got = '%s: %s' % (type(e).__name__, str(e)[:100])
+                key = (name, 'inferred expect, non-text', repr(inp)[:40], dbg)
+                (t.ok if got == 'ConfigError' else t.fail)(name + ' non-text input with inferred answer', key,
+                                                            *([] if got == 'ConfigError' else ['%s(expect=%r, debug=%s) on non-text input %r: %s, expected ConfigError' % (name, expect, dbg, inp, got)]))
+        for inp in rnd.sample(hostile, 12):
+            judge(name + ' inferred', inp, outcome(mk(), inp) if False else _call_with_expect(mk(), expect, inp, exc))
+    # dependent samplers / sibling references: partially resolvable dependency sets must end in an error, not loop
+    S = rtcheck.real_module('mitxgraders/sampling.py')
+    dep_cases = [
+        ('siblings with unknown name', lambda: lg.ListGrader(answers=['sibling_2*sibling_3', 'x', 'x^2'], subgraders=fgm.FormulaGrader(variables=['x']), ordered=True), ['x^3', 'x', 'y']),
+        ('siblings self reference', lambda: lg.ListGrader(answers=['sibling_2*sibling_3', 'x', 'x^2'], subgraders=fgm.FormulaGrader(variables=['x']), ordered=True), ['x^3', 'x', 'sibling_1']),
+        ('one resolvable + circular pair', lambda: fgm.FormulaGrader(answers='a+b+c', variables=['x', 'a', 'b', 'c'],
+                                                                     sample_from={'a': S.DependentSampler(formula='x+1'), 'b': S.DependentSampler(formula='c'), 'c': S.DependentSampler(formula='b')}), 'a+b+c'),
+        ('one resolvable + undefined', lambda: fgm.FormulaGrader(answers='a+b', variables=['x', 'a', 'b'],
+                                                                 sample_from={'a': S.DependentSampler(formula='x+1'), 'b': S.DependentSampler(formula='zz+1')}), 'a+b'),
+        ('chain of three', lambda: fgm.FormulaGrader(answers='c', variables=['x', 'a', 'b', 'c'],
+                                                     sample_from={'c': S.DependentSampler(formula='b+1'), 'b': S.DependentSampler(formula='a+1'), 'a': S.DependentSampler(formula='x')}), 'x+2'),
+    ]
+    for name, mk, inp in dep_cases:
+        signal.signal(signal.SIGALRM, _alarm)
+        signal.alarm(5)
+        try:
+            g = mk()
+            judge('dependent sampling: ' + name, inp, outcome(g, inp))
+        except _Timeout:
+            t.fail('dependent sampling: ' + name, (name,), 'constructing/grading %s did not terminate within 5 s' % name)
+        except exc.MITxError:
+            t.ok('dependent sampling: ' + name, (name,))
+        except Exception as e:
+            t.fail('dependent sampling: ' + name, (name,), '%s: foreign %s: %s' % (name, type(e).__name__, str(e)[:150]))
+        finally:
+            signal.alarm(0)
     # anticipated problems keep class and message (line breaks as <br/>); unanticipated ones become the generic StudentFacingError naming the input
     class Boom(bc.ItemGrader):
         def check_response(self, answer, student_input, **kwargs):
